@@ -563,6 +563,8 @@ Notes:
   samples = asarray(list(samples)) #XXX: faster to use x = array(x, copy=True) ?
   sr = spread(samples)
   if not sr:  # protect against ZeroDivision when range = 0
+    if not r: # range is to be 0
+      return [float(i) for i in samples]
     from numpy import nan
     return [nan]*len(samples) #XXX: better to space pts evenly across range?
   scale = float(r) / sr
